@@ -45,7 +45,7 @@ CLASSES = [
 ]
 BUDGET = {
     "quick": dict(cases=200, shards=4, timeout=1200),
-    "thorough": dict(cases=500, shards=16, timeout=3000, time=420),
+    "thorough": dict(cases=500, shards=16, timeout=3000, time=600),
 }
 GRID_CASES = 41 * 6 * 4 * 4
 FLOORS = {
@@ -386,7 +386,12 @@ def _execute_gloo(case, mon):
 
     W = case["W"]
     cfgs = _gloo_cfgs(W, case["plan"])
-    tmp = tempfile.mkdtemp(prefix="vmon-c13-gloo-")
+    parent = None
+    if "--out" in sys.argv[:-1]:  # inside the run's own temporary directory, which the parent removes
+        d = os.path.dirname(os.path.abspath(sys.argv[sys.argv.index("--out") + 1]))
+        if os.path.isdir(d) and os.path.basename(d).startswith("vmon-"):
+            parent = d
+    tmp = tempfile.mkdtemp(prefix="vmon-c13-gloo-", dir=parent)
     procs = []
     try:
         cfgp = os.path.join(tmp, "cfgs.json")
